@@ -156,3 +156,28 @@ Proof. vm_compute. reflexivity. Qed.
 Example C15_example_passes :
   length_check [(lit "00:00:02.002", repeat 97 32 ++ [10] ++ repeat 98 32)] = None.
 Proof. vm_compute. reflexivity. Qed.
+
+(* ---- wave 7: the order clause for the layout pycaption's own SCCWriter produces (Erase-Displayed-Memory inside the load
+   line before its End-Of-Caption, rows incl. the indent-0 form of the preamble code): inside the domain of the pop-on
+   refinement no order of the rows makes the reader raise; one hypothesis set serves both orders (the EDM and EOC words sit
+   at the same indices). tcE / tcL: timecodes denoting the instants of the line's EDM word / of tc + (1 | 2) frames
+   (they exist for rendered timecodes: C05_winline_clock) ------------------------------------------------------------- *)
+From PV Require Import spec.SpecSccTime spec.SpecScc05Inline proofs.SccPoponFacts proofs.SccPoponStage6 proofs.SccPoponStage9 proofs.SccInlineEdmFacts proofs.SccInlineCorFacts.
+Theorem C15_popon_row_order_free_inline : forall d off tc tcE tcL tc2 l l' evs spans, Permutation l l' -> load_wf l = true ->
+  wseg_clock d off (WInline tc tcE tcL l) ->
+  res_map (pseg_event d off) [PClear tcE; PLoad tcL l; PClear tc2] = Ok evs -> positive evs -> after_show None evs ->
+  expected_with join_threshold evs = Ok spans ->
+  exists caps caps',
+    read off [(tc, emit_load_w d l); (tc2, emit_clear d)] = ROk caps /\
+    read off [(tc, emit_load_w d l'); (tc2, emit_clear d)] = ROk caps' /\
+    ok_c05 (mkProg d [l]) (Ok (map observe caps)) = true /\
+    ok_c05 (mkProg d [l']) (Ok (map observe caps')) = true.
+Proof. exact popon_row_order_free_inline. Qed.
+Print Assumptions C15_popon_row_order_free_inline.
+Example C15_popon_row_order_free_inline_instance :
+  exists caps caps',
+    read 0 [(lit "00:00:01:00", emit_load_w true ordw_a); (lit "00:00:05:00", emit_clear true)] = ROk caps /\
+    read 0 [(lit "00:00:01:00", emit_load_w true ordw_b); (lit "00:00:05:00", emit_clear true)] = ROk caps' /\
+    ok_c05 (mkProg true [ordw_a]) (Ok (map observe caps)) = true /\
+    ok_c05 (mkProg true [ordw_b]) (Ok (map observe caps')) = true.
+Proof. exact popon_row_order_free_inline_instance. Qed.
